@@ -162,6 +162,16 @@ NumOp(op, a, b) ==
 RECURSIVE RepeatSeq(_, _)
 RepeatSeq(xs, k) == IF k <= 0 THEN <<>> ELSE xs \o RepeatSeq(xs, k - 1)
 
+\* sets of small ints as ascending sequences
+SetOps == {"|", "&", "-", "^"}
+IntSetOf(v) == { v.xs[i].n : i \in 1..Len(v.xs) }
+IsIntSet(v) == v.t = "set" /\ \A i \in 1..Len(v.xs) : v.xs[i].t = "int"
+RECURSIVE AscSeq(_)
+AscSeq(S) == IF S = {} THEN <<>> ELSE LET m == CHOOSE x \in S : \A y \in S : x <= y IN <<VInt(m)>> \o AscSeq(S \ {m})
+SetOpVal(op, a, b) ==
+    LET A == IntSetOf(a) B == IntSetOf(b) IN
+    VSet(AscSeq(CASE op = "|" -> A \cup B [] op = "&" -> A \cap B [] op = "-" -> A \ B [] op = "^" -> (A \ B) \cup (B \ A)))
+
 \* binary operator on arbitrary values
 BinOp(op, a0, b0, heap) ==
     LET a == Deref(a0, heap)
@@ -169,6 +179,8 @@ BinOp(op, a0, b0, heap) ==
         seqT == {"list", "tuple"}
     IN
     IF IsNum(a) /\ IsNum(b) THEN NumOp(op, a, b)
+    \* set | & - ^ set: a NEW set (neither operand is changed, the result is neither operand)
+    ELSE IF IsIntSet(a) /\ IsIntSet(b) /\ op \in SetOps THEN ROk(SetOpVal(op, a, b))
     ELSE IF a.t \in {"set", "dict"} \/ b.t \in {"set", "dict"} THEN RSkip
     ELSE IF a.t = "str" /\ op = "%" THEN RSkip
     ELSE IF op = "+" /\ a.t = b.t /\ a.t \in seqT THEN
@@ -233,7 +245,8 @@ CmpOp(op, a0, b0, heap) ==
                ELSE IF a.t \in {"list", "set", "dict"} /\ ~PyEq(a, b, heap) THEN { ROk(VBool(FALSE)) }
                ELSE { RSkip }
         inR == CASE b.t \in {"list", "tuple"} -> { ROk(VBool(\E i \in 1..Len(b.xs) : PyEq(a0, b.xs[i], heap))) }
-                 [] b.t = "set" -> IF ~Hashable(a0, heap) THEN { RExc("TypeError") }
+                 \* (a SET on the left is looked up as the frozenset of its members, so it is an equality search, not an error)
+                 [] b.t = "set" -> IF ~Hashable(a0, heap) /\ a.t # "set" THEN { RExc("TypeError") }
                                    ELSE { ROk(VBool(\E i \in 1..Len(b.xs) : PyEq(a0, b.xs[i], heap))) }
                  [] b.t = "dict" -> IF ~Hashable(a0, heap) THEN { RExc("TypeError") }
                                     ELSE { ROk(VBool(\E i \in 1..Len(b.xs) : PyEq(a0, b.xs[i].xs[1], heap))) }
@@ -582,6 +595,13 @@ InplaceOp(op, a0, b0, p) ==
         ELSE IF a0.t = "ref" THEN [r |-> ROk(a0), p |-> [p EXCEPT !.heap = [p.heap EXCEPT ![a0.n] = VList(a.xs \o it.xs)]]]
         ELSE [r |-> ROk(VList(a.xs \o it.xs)), p |-> p]
     ELSE IF a.t = "list" THEN [r |-> RSkip, p |-> p]     \* list *= : not modelled
+    \* set |= &= -= ^= set: the LEFT operand's object is updated in place and stays the target's value; the right
+    \* operand is only read (for a commutative operator the two are told apart by exactly this)
+    ELSE IF IsIntSet(a) /\ op \in SetOps THEN
+        LET b == Deref(b0, p.heap) IN
+        IF ~IsIntSet(b) THEN [r |-> (IF b.t \in {"set", "dict"} THEN RSkip ELSE RExc("TypeError")), p |-> p]
+        ELSE IF a0.t = "ref" THEN [r |-> ROk(a0), p |-> [p EXCEPT !.heap = [p.heap EXCEPT ![a0.n] = SetOpVal(op, a, b)]]]
+        ELSE [r |-> ROk(SetOpVal(op, a, b)), p |-> p]
     ELSE [r |-> BinOp(op, a0, b0, p.heap), p |-> p]
 
 Exec(s, st0) ==
